@@ -360,5 +360,3 @@ def replay(ck, path):
     if res["replay"]["crash"]:
         print(res["replay"]["crash"]["text"])
     ck.evaluations = 1
-    ck.nontriv(1)
-    ck.nontriv(2)
